@@ -58,6 +58,9 @@ var MutationKinds = []struct{ Kind, Rule string }{
 	{"nestedWrongLiteral", "ArgumentsOfCorrectType"},
 	{"listAtNonListPosition", "ArgumentsOfCorrectType"},
 	{"multiFaultLiteral", "VariablesInAllowedPosition"},
+	{"directiveEverywhere", "KnownDirectives"},
+	{"operationWithoutRoot", "FieldsOnCorrectType"},
+	{"changeOperationKind", "KnownDirectives"},
 }
 
 // SelList is one selection list of the document with the type context of its members.
@@ -429,6 +432,54 @@ func Mutate(r *hx.Rng, v *SchemaView, d *VDoc, kind string) bool {
 				dir.Args = []*VArg{{Name: "reason", Value: `"x"`}}
 			}
 			s.Dirs = append(s.Dirs, dir)
+		}
+	case "directiveEverywhere":
+		// one directive of the schema (custom or specified) at EVERY directive site of the document: allowed
+		// placements and every misplacement of it at once
+		all := append([]gq.DirectiveDesc{
+			{Name: "skip", Locations: []string{"FIELD", "FRAGMENT_SPREAD", "INLINE_FRAGMENT"}, Args: []gq.ArgDesc{{Name: "if", Type: "Boolean!"}}},
+			{Name: "include", Locations: []string{"FIELD", "FRAGMENT_SPREAD", "INLINE_FRAGMENT"}, Args: []gq.ArgDesc{{Name: "if", Type: "Boolean!"}}},
+			{Name: "deprecated", Locations: []string{"FIELD_DEFINITION", "ENUM_VALUE"}}}, v.D.Directives...)
+		dd := all[r.Intn(len(all))]
+		mk := func() *VDir {
+			dir := &VDir{Name: dd.Name}
+			for _, a := range dd.Args {
+				if strings.HasSuffix(a.Type, "!") {
+					dir.Args = append(dir.Args, &VArg{Name: a.Name, Value: m.lg.literal(a.Type, 1, false), Type: a.Type})
+				}
+			}
+			return dir
+		}
+		for _, o := range d.Ops {
+			o.Dirs = append(o.Dirs, mk())
+		}
+		for _, f := range d.Frags {
+			f.Dirs = append(f.Dirs, mk())
+		}
+		for _, k := range []string{"field", "spread", "inline"} {
+			for _, s := range d.AllSels(k) {
+				if r.Chance(2, 3) {
+					s.Dirs = append(s.Dirs, mk())
+				}
+			}
+		}
+	case "operationWithoutRoot", "changeOperationKind":
+		// an operation of another kind: with the selections it has (fields of the old root type) — and, for
+		// operationWithoutRoot, a kind for which the schema has NO root type
+		o := d.Ops[r.Intn(len(d.Ops))]
+		var kinds []string
+		for _, k := range []string{"query", "mutation", "subscription"} {
+			has := k == "query" || k == "mutation" && v.D.Mutation != nil || k == "subscription" && v.D.Subscription != nil
+			if k != o.Kind && has == (kind == "changeOperationKind") {
+				kinds = append(kinds, k)
+			}
+		}
+		if len(kinds) == 0 {
+			return false
+		}
+		o.Kind = r.Pick(kinds)
+		if o.Name == "" && len(o.Vars) == 0 && len(o.Dirs) == 0 {
+			o.Name = "Chg"
 		}
 	case "unknownFragment":
 		l := lists[r.Intn(len(lists))]
@@ -838,8 +889,25 @@ func Mutate(r *hx.Rng, v *SchemaView, d *VDoc, kind string) bool {
 							if f1.Type == f2.Type || !m.v.IsLeaf(NamedOf(f1.Type)) || !m.v.IsLeaf(NamedOf(f2.Type)) || hasRequired(f1) || hasRequired(f2) {
 								continue
 							}
-							s1 := &VSel{Kind: "inline", On: t1, Parent: l.Parent, Sel: []*VSel{{Kind: "field", Alias: "zz", Name: f1.Name, Parent: t1, Type: f1.Type}}}
+							first := &VSel{Kind: "field", Alias: "zz", Name: f1.Name, Parent: t1, Type: f1.Type}
 							leaf := &VSel{Kind: "field", Alias: "zz", Name: f2.Name, Parent: t2, Type: f2.Type}
+							// half of the time one of the two fields sits in an inline fragment WITHOUT type condition (once or
+							// twice nested): it keeps the parent type of the enclosing typed fragment
+							if r.Chance(1, 2) {
+								wrap := func(x *VSel, parent string) *VSel {
+									w := &VSel{Kind: "inline", Parent: parent, Sel: []*VSel{x}}
+									if r.Chance(1, 3) {
+										w = &VSel{Kind: "inline", Parent: parent, Sel: []*VSel{w}}
+									}
+									return w
+								}
+								if r.Chance(1, 2) {
+									first = wrap(first, t1)
+								} else {
+									leaf = wrap(leaf, t2)
+								}
+							}
+							s1 := &VSel{Kind: "inline", On: t1, Parent: l.Parent, Sel: []*VSel{first}}
 							s2 := &VSel{Kind: "inline", On: t2, Parent: l.Parent, Sel: []*VSel{m.chain("Sh", t2, depth, leaf)}}
 							*l.List = append(*l.List, s1, s2)
 							return true
